@@ -59,6 +59,10 @@ def gen_cases(rng, tier: str) -> list[dict]:
                 c["warm"] = [c["p"], c["p"]]          # the route's own object asked at this very point before (twice)
             elif r < 0.5 and prior:
                 c["warm"] = [c["prior"] or c["p"], c["p"]]
+            elif r < 0.7 and c["prior"]:
+                # asked here, the expression's nodes visited at another point by someone else, asked here again (an
+                # equal point, not the same object)
+                c["warm"] = [c["p"], "@" + c["prior"]]
             cases.append(c)
     # products evaluated where a factor vanishes: the expression is defined there (value 0), so every route must answer
     for e, pt in common.vanishing_products(rng, common.sizes(tier, 60, 800)):
@@ -83,7 +87,7 @@ def check_cases(cases: list[dict], rep: Report, known: dict) -> None:
             if c.get("prior"):          # the same expression object was evaluated before, elsewhere
                 call(obj.at, wire.build_point(c["prior"]))
             impl = routes.run_route(r, obj, c["x"] if r not in routes.DERIV_ROUTES else None, p,
-                                    warm=[wire.build_point(q) for q in c.get("warm", [])])
+                                    warm=[("elsewhere", wire.build_point(q[1:])) if q.startswith("@") else wire.build_point(q) for q in c.get("warm", [])])
             xr = c["x"] if r not in routes.DERIV_ROUTES else (common.names_of(e) or ["whatever"])[0]
             nc = NumCase((c["e"], c["p"], c["x"], r), f"route {r} {xr} {c['e']} {c['p']}", impl,
                          dict(c, route=r, impl=repr(impl), at=repr(base)))
@@ -132,7 +136,7 @@ def check_cases(cases: list[dict], rep: Report, known: dict) -> None:
 def k1_explains(c: dict, r: str, p) -> bool:
     with common.k1_disabled() as k1:
         out = routes.run_route(r, wire.build_raw(c["e"]), c["x"] if r not in routes.DERIV_ROUTES else None, p,
-                               warm=[wire.build_point(q) for q in c.get("warm", [])])
+                               warm=[("elsewhere", wire.build_point(q[1:])) if q.startswith("@") else wire.build_point(q) for q in c.get("warm", [])])
     return out[0] == "ok" and k1.hits > 0
 
 
